@@ -32,8 +32,8 @@ pub const NAV_NODE_SPEECH_NOT_FOUND: &str = "NAV_NODE_NOT_FOUND";
 ///   Unlike lisp, this appended to the end of a string (more efficient)
 /// At the moment, the only use is BrailleChars(...) -- internally, it calls replace_chars and we don't want it called again.
 /// Note: an alternative to this hack is to add "xq" (execute but don't eval the result), but that's heavy-handed for the current need
-const NO_EVAL_QUOTE_CHAR: char = '\u{e00A}';            // a private space char
-const NO_EVAL_QUOTE_CHAR_AS_BYTES: [u8;3] = [0xee,0x80,0x8a];
+const NO_EVAL_QUOTE_CHAR: char = '\u{e0FF}';            // a private space char (not U+E000..U+E01F: the CMU rules use those for digits and hex digits)
+const NO_EVAL_QUOTE_CHAR_AS_BYTES: [u8;3] = [0xee,0x83,0xbf];
 const N_BYTES_NO_EVAL_QUOTE_CHAR: usize = NO_EVAL_QUOTE_CHAR.len_utf8();
 
 /// Converts 'string' into a "quoted" string -- use is_quoted_string and unquote_string
